@@ -232,6 +232,9 @@ class Validator:
         else:
             key = path[-1]
             d = dictutils.findkey(rootdict, *path[:-1])
+            if isinstance(d[key], dict) and "__type__" in d[key]:
+                # the error is on a nested object e.g. WEB or LEGEND
+                d = d[key]
 
         error_message = f"ERROR: Invalid value in {key.upper()}"
 
